@@ -14,7 +14,7 @@ from vlib import build_harness, log, ToolError, translate, QT5_METATYPES, VERIF_
 from vlib import trees as T
 
 RULE = ("case = object tree with an id assignment; trees: shapes of GenTree.tla up to 4 nodes + seeded sample of 5, and all shallow trees with 1..4 "
-        "children over {QLabel, Label1, QWidget, Widget2, QAction}; id strategies anonymous / some / all / adversarial (twice) / duplicate / explicit "
+        "children over {QLabel, Label1, QWidget, Widget2, QAction}; id strategies anonymous / some / all / adversarial (twice) / member-like (ids spelled like properties, slots and signals) / duplicate / explicit "
         "actions; non-trivial = >= 1 anonymous object sharing a prefix with an id or another object; distinct by JSON")
 
 WIDGETISH = ("widget", "menu", "tab")
@@ -30,12 +30,22 @@ def plant_refs(t, r):
     for l in labels:
         if other and r.random() < 0.25:
             extra.setdefault(id(l), []).append("buddy: %s" % r.choice(other)["id"])   # must be rejected, never emitted
+            extra["_incompatible"] = True
         elif ided and r.random() < 0.6:
             tgt = r.choice(ided)
             extra.setdefault(id(l), []).append("buddy: %s" % tgt["id"])
-        src = [n for n in labels if n["id"] and n is not l]
+        # a dynamic buddy with several returns: object, null, object -- every returned object must be a QWidget
+        if ided and (ided + other) and r.random() < 0.2 and not any(x.startswith("buddy:") for x in extra.get(id(l), [])):
+            cond = r.choice(ided)["id"]
+            first = r.choice(ided + other)
+            same = [n for n in ided + other if n["cls"] == first["cls"]] if first in ided else ided     # returned objects of one class, or an incompatible one first
+            last = r.choice(same)
+            extra.setdefault(id(l), []).append('buddy: { if (%s.windowTitle == "a") { return %s } if (%s.windowTitle == "b") { return null } return %s }' % (cond, first["id"], cond, last["id"]))
+            if first in other or last in other:
+                extra["_incompatible"] = True
+        src = [n for n in ided if n is not l]
         if src and r.random() < 0.6:
-            extra.setdefault(id(l), []).append("text: %s.text" % r.choice(src)["id"])
+            extra.setdefault(id(l), []).append("text: %s.windowTitle" % r.choice(src)["id"])     # windowTitle has a NOTIFY signal (QLabel.text has none)
     return extra
 
 
@@ -54,10 +64,10 @@ def run(chk):
     names = T.tlc_trees(chk, 4, 100000, chk.seed, which="names")
     items = []
     for n, t in enumerate(names):
-        for s in ("anon", "adversarial", "adversarial", "some"):
+        for s in ("anon", "adversarial", "adversarial", "some", "members"):
             items.append(("n%d_%s%d" % (n, s, len(items)), T.assign_ids(t, s, r)))
     for n, t in enumerate(shapes):
-        for s in (("adversarial", "dup") if n % 3 else ("anon", "adversarial", "actions")):
+        for s in (("adversarial", "dup") if n % 3 else ("anon", "adversarial", "actions", "members")):
             if s == "actions" and not any(T.kind(x["cls"]) in ("action", "menu") for x, _ in T.nodes(t)):
                 continue
             items.append(("s%d_%s%d" % (n, s, len(items)), T.assign_ids(t, s, r)))
@@ -88,6 +98,14 @@ def run(chk):
                 chk.violation("duplicate id accepted", {"qml": qml, "ui": run_.get("ui")})
             elif not any("duplicated object id" in d["msg"] for d in run_.get("diags", [])):
                 chk.violation("duplicate id rejected without naming it: %s" % [d["msg"] for d in run_.get("diags", [])][:3], {"qml": qml})
+            continue
+        if accepted and extras[i].get("_incompatible"):
+            chk.violation("a reference to an object that is not a QWidget is accepted as a buddy", {"qml": qml, "ui": run_.get("ui"), "header": run_.get("header")})
+            continue
+        reserved = any(n["id"] == "separator" and T.kind(n["cls"]) in ("action", "menu") for n in ns)      # diagnosed since the F8 repair
+        if e["accepted"] and not accepted and not extras[i].get("_incompatible") and not reserved:
+            chk.violation("admissible document whose references all name declared objects of a compatible class is rejected: %s" % [d["msg"] for d in run_.get("diags", [])][:3],
+                          {"qml": qml, "diags": run_.get("diags")})
             continue
         if not e["accepted"] or not accepted:
             continue        # admissibility of shapes is C11's business; references to ids of incompatible class are rejected rightly
